@@ -169,6 +169,11 @@ def compare_fields(ctx, kind, version, A, B, text, path=""):
         if na == [] and nb == [""]:
             out.append(("empty-list-read-as-one-empty-string",
                         f"{path}{f}: [] is written as '[]' and read back as ['']"))
+        elif attr == "keySignature" and isinstance(na, list) and isinstance(nb, list) and len(na) >= 3 and na[2] is None \
+                and nb[1:2] == na[1:2] and nb[2] == "major":
+            # a key object without a mode (a MusicXML key without <mode>) is none of the 30 key names: its text can only name a mode
+            ctx.ambiguous()
+            ctx.extra["key_without_mode_not_denotable"] += 1
         elif attr == "keySignature" and tuple(version) >= R.V1:
             out.append(("keysig-v1-name-read-by-v0.3-pattern",
                         f"{path}{f}: key {na[1:5]} written in 1.0.0 spelling is read back as {nb[1:5]}"))
@@ -476,6 +481,19 @@ def post_fsd_add(ret, exc, token, a, k):
         return
     (va, ca, ta, (na, da)), (vb, cb, tb, (nb, db)) = token
     exact = va + vb
+    # addition leaves its operands as they were (a line's Offset is still its Offset after Offset + Duration was evaluated)
+    for which, obj, text0, comps0 in (("left", a[0], ta, ca), ("right", a[1] if len(a) > 1 else k.get("sd"), tb, cb)):
+        if isinstance(obj, int):
+            continue
+        ctx.check()
+        try:
+            now = R.fsd_parts(obj)
+            text1 = str(obj)
+        except Exception:
+            continue
+        comps1 = now[3] if now[3] is not None else [(now[0], now[1], now[2])]
+        if text1 != text0 or comps1 != comps0:
+            ctx.violation("duration-addition-changed-its-operand", f"{ta} + {tb}: the {which} operand now reads {text1}", {"a": ta, "b": tb})
     ctx.check()
     n, d, t, comps = R.fsd_parts(ret)
     wit = {"a": ta, "b": tb}
